@@ -385,11 +385,103 @@ class ClipScaling(Scaling):
         return super().stmt_Assign(st, env)
 
 
+#: dense signals (feasible: many samples carry power) the PAPR projection is evaluated on, and the limits used
+PAPR_SIGNALS = (
+    [0.1, 0.2, -0.1, 3.0, 0.05, -0.2, 0.1, 0.15],
+    [2.0, 0.1, -0.3, 0.2, 1.9, -0.1, 0.05, 0.0, -2.1, 0.3],
+    [complex(0.1, 0.2), complex(-2, 2), complex(0.3, -0.1), complex(0.1, 0), complex(0, 0.2), complex(-0.1, -0.1)],
+    [1.0, -1.0, 1.0, -1.0],
+    [0.5, -0.4, 0.45, 0.55, -0.5, 0.6, -0.45, 0.5, 4.0, -0.5, 0.5, 0.45],
+    [[0.2, -0.1, 2.5, 0.3], [0.1, -0.3, 0.2, -2.4]],
+    [complex(1, 1), complex(-1, 1), complex(1.2, -0.9), complex(-3, -3), complex(0.8, 1.1), complex(1, -1), complex(-0.9, 1), complex(1, 1)],
+)
+PAPR_LIMITS = (1.5, 2.0, 3.0, 4.0)
+#: a heavy-tailed signal on which, for the limit 1.1, the iteration does not reach its target and the final clip acts
+PAPR_SLOW = ([0.3929, -0.5189, -0.5231, -0.2731, 0.5772, -0.267, -0.3003, -1.1285, -0.02, -3.5008, 0.999, 2.622, -2.2969, 3.4727, 0.696, 0.004], 1.1)
+
+
+def papr_evaluated(repo: Repo):
+    """_apply_constraint_to_single_item (class helpers followed) evaluated with own arithmetic on dense real and complex
+    signals for four limits: the output's peak-to-average power ratio must not exceed the limit, and every output sample
+    must be its input sample times a real factor in [0, 1] (sign / phase kept, nothing amplified).
+    Returns (status, detail) or (None, reason)."""
+    from ..constfold import Unfoldable
+    from ..frag import FragRaise, FragReturn, run_fragment
+
+    ci = repo.cls(PW, "PAPRConstraint")
+    fi = repo.method(ci, "_apply_constraint_to_single_item")
+    funcs = {f"self.{nm}": m.node for nm, m in ci.methods.items() if nm not in ("forward", "__init__", "_apply_constraint_to_single_item")}
+
+    def flat(z):
+        return [y for t in z for y in flat(t)] if isinstance(z, list) else [z]
+
+    cases = 0
+    scaled_out = []
+    from ..frag import coverage_scope
+
+    scope = coverage_scope()
+    scope.__enter__()
+    followed = [fi.node] + [m.node for nm, m in ci.methods.items() if f"self.{nm}" in funcs and any(isinstance(c_, ast.Call) and attr_chain(c_.func) == f"self.{nm}" for c_ in ast.walk(fi.node))]
+    for mp, x in [(mp_, x_) for mp_ in PAPR_LIMITS for x_ in PAPR_SIGNALS] + [(PAPR_SLOW[1], [v_ * sc_ for v_ in PAPR_SLOW[0]]) for sc_ in (1.0, 30.0, 0.02)]:
+        if True:
+            try:
+                run_fragment(fi.body, {"x": x, "args": [], "kwargs": {}}, {"self.max_papr": mp}, funcs=funcs, materialise=True, max_steps=4000000, attrs_live=True)
+                scope.__exit__()
+                return None, "no value returned"
+            except FragReturn as ret:
+                y = ret.value
+            except (Unfoldable, FragRaise, TypeError, IndexError, ValueError, ZeroDivisionError, OverflowError) as exc:
+                scope.__exit__()
+                return None, str(exc)
+            xf, yf = flat(x), flat(y) if isinstance(y, list) else None
+            if yf is None or len(yf) != len(xf) or not all(isinstance(v, (int, float, complex)) and not isinstance(v, bool) for v in yf):
+                scope.__exit__()
+                return None, "the result is not a signal of the input's size"
+            pw = [abs(v) ** 2 for v in yf]
+            avg = sum(pw) / len(pw)
+            if avg <= 0 or any(v != v for v in pw):
+                scope.__exit__()
+                return VIOLATION, f"max_papr = {mp}, input {str(x)[:70]}: the output has no power / is not a number"
+            ratio = max(pw) / avg
+            if ratio > mp * (1 + 1e-9):
+                scope.__exit__()
+                return VIOLATION, f"max_papr = {mp}, input {str(x)[:90]} (PAPR {max(abs(v) ** 2 for v in xf) / (sum(abs(v) ** 2 for v in xf) / len(xf)):.3f}): the output has PAPR {ratio:.4f} > {mp}: the limit is not enforced for this item"
+            for a, b in zip(xf, yf):
+                if abs(a) == 0:
+                    if abs(b) > 1e-12:
+                        scope.__exit__()
+                        return VIOLATION, f"max_papr = {mp}: a zero sample becomes {b}"
+                    continue
+                f_ = complex(b) / complex(a)
+                if abs(f_.imag) > 1e-9 or f_.real < -1e-12 or f_.real > 1 + 1e-9:
+                    scope.__exit__()
+                    return VIOLATION, f"max_papr = {mp}, input {str(x)[:70]}: the sample {a} becomes {b} (factor {f_:.6g}): clipping must scale a sample by a real factor in [0, 1] - its sign / phase is kept and it is not amplified"
+            cases += 1
+            if mp == PAPR_SLOW[1] and len(xf) == len(PAPR_SLOW[0]):
+                scaled_out.append((abs(complex(xf[9])) / abs(PAPR_SLOW[0][9]), [complex(v) for v in yf]))
+    scope.__exit__()
+    # the projection commutes with a rescaling of its input (every bound is a multiple of the signal's own rms)
+    if len(scaled_out) >= 2:
+        s0, y0 = scaled_out[0]
+        for s1, y1 in scaled_out[1:]:
+            dev = max(abs(b / s1 - a / s0) for a, b in zip(y0, y1)) / max(abs(a / s0) for a in y0)
+            if dev > 1e-3:
+                return VIOLATION, f"the heavy-tailed signal scaled by {s1 / s0:g} is not mapped to the scaled output (relative deviation {dev:.3g}): a clipping level of the projection is not a multiple of the signal's own rms amplitude (sqrt(avg_power * max_papr * c)), so what the constraint does depends on the unit the signal is expressed in"
+    gap = scope.note(followed)
+    if gap:
+        return None, f"branches never reached by the samples: {gap}"
+    return OK, f"{cases} (signal, limit) pairs - dense real, complex and 2-D items, limits {PAPR_LIMITS}, and a heavy-tailed signal (at three scales, limit 1.1) on which the final clip acts: output PAPR <= limit, every sample scaled by a real factor in [0, 1], the map commutes with rescaling the input; every branch of the method was taken"
+
+
 def rule_papr(repo: Repo, rep: Report) -> int:
     ci = repo.cls(PW, "PAPRConstraint")
     fi = repo.method(ci, "_apply_constraint_to_single_item")
     set_parents(fi.node)
     n = 0
+    est_, ed_ = papr_evaluated(repo)
+    if est_ is not None:
+        rep.add("PAPR", fi, "_apply_constraint_to_single_item evaluated on dense signals for four limits", est_, ed_, node=fi.node)
+        return 8 + _papr_dispatch(repo, rep, ci)
     MP = Mono.sym("MP")
     it = ClipScaling(fi, repo, cls=ci, attr_values={"self.max_papr": SV("det", MP)})
     it.MAX_ITER = 2
@@ -441,6 +533,11 @@ def rule_papr(repo: Repo, rep: Report) -> int:
     okm = any(isinstance(c.ops[0], ast.Gt) and isinstance(val, SV) and val.m is not None and r.m == val.m for (c, l, r) in finals)
     rep.check(okm, "PAPR", fi, f"final mask `{mname}`: {[unparse(c) for (c, l, r) in finals]}", "samples with |v| > bound are exactly the ones clipped to the bound", "the final mask does not compare |v| with the bound it clips to", node=st)
     n += 1
+    return n + _papr_dispatch(repo, rep, ci)
+
+
+def _papr_dispatch(repo: Repo, rep: Report, ci) -> int:
+    n = 0
     fwd = repo.method(ci, "forward")
     dispatch_rule(rep, "PAPR", fwd, batched_marker=lambda b: any((isinstance(c, ast.Call) and call_name(c) == "torch.vmap") or (isinstance(c, ast.Subscript) and unparse(c) == "x[i]") for s_ in b for c in ast.walk(s_)))
     n += 1
